@@ -14,9 +14,13 @@ MANIFEST = dict(
          'initialised modules, NameError / AttributeError, attribute lookup along bases). Proved for ALL API descriptions: the '
          'promised module-level names, class bodies, constructor parameters, Python bases, validators and ROUTES are bound '
          '(exposes_all_*), attributes of inherited members are found along the bases, nothing is bound twice when the bound '
-         'names differ (defines_once); import_safe: for a well-formed description with an acyclic import graph the import '
-         'succeeds whichever module comes first; decided witnesses show that acyclicity, the alias order at any depth, '
-         'alias names fixed by fmt_class and plain route attributes are all needed. Tied to the code by a translator (section '
+         'names differ (defines_once); import_safe / import_all_safe: for every description satisfying the decidable '
+         'well-formedness predicate apiWF and with an acyclic import graph, importing ANY namespace module first into a fresh '
+         'interpreter - and then all the others - runs every statement to completion and leaves every module completely '
+         'loaded (proved through the generator section by section: classes, aliases, reflection tables per omitted caller, '
+         'subtype maps, void-tag instances, defaults, routes), with acyclic_of_acyclicB tying the driver\'s executable test to '
+         'the hypothesis; decided witnesses show that acyclicity, the alias order at any depth, alias names fixed by '
+         'fmt_class and plain route attributes are all needed. Tied to the code by a translator (section '
          'order of _generate_base_namespace_module, the word-splitting regexes, the reserved-word table, the two raw-name '
          'sites, pinned by rfl / decide) and by parsing every generated module with Python\'s ast and comparing its reduced '
          'statement list, and the interpreter\'s verdict, with the compiled model; plus two direct oracles independent of the '
